@@ -403,10 +403,18 @@ func genC11(r *rand.Rand, t *Trace, thorough bool) {
 					h := comet.NewHybridSearchIndex(v, nil, nil)
 					for i := 0; i < 200; i++ {
 						var id uint32
-						if i%2 == 0 {
+						switch i % 4 {
+						case 0, 2:
 							id, _ = h.Add([]float32{1, 2}, "", nil)
-						} else {
+						case 1:
 							id = comet.NewVectorNode([]float32{1}).ID()
+						default:
+							// a REJECTED add (wrong dimension) in the middle of other goroutines' successful
+							// ones: the id it drew must stay burnt, whatever the error path does
+							if _, err := h.Add([]float32{1, 2, 3}, "", nil); err == nil {
+								panic("wrong-dimension add accepted")
+							}
+							continue
 						}
 						mu.Lock()
 						if seen[id] {
